@@ -168,6 +168,11 @@ func drawRunCfg(prop, tier string) *runCfg {
 	// one C07 run in four drives the multimodal input path (Server.inputs with [img-n] tags,
 	// EncodeMultimodal / PostTokenize, MultimodalHash in the prefix comparison, SameBatch groups)
 	c.vision = prop == "C07" && d("vision", 4) == 0
+	if c.vision && c.numCtx < 8 {
+		// an image occupies up to four inputs that must share a batch: contexts that cannot
+		// hold one next to a little text are not a configuration of a vision model
+		c.numCtx = 8
+	}
 	if c.vision && c.cacheKind != cacheCausal && c.batch < 4 && d("vision-small-batch", 4) != 0 {
 		// A batch that a SameBatch group extends beyond the configured batch size does not fit
 		// a sliding-window cache (sized window + batch per sequence): the run loop dies (open
@@ -292,9 +297,11 @@ func (srv *simServer) start() {
 					srv.fatal = err.Error()
 					verifsim.Probe("runner_fatal_batch_error")
 					cl := fatalClass(srv.fatal)
-					if cl == "kv-cache-full" && srv.rec.lastFullRows > srv.s.batchSize {
-						// the refused batch was larger than the batch size the cache was initialised
-						// for: a SameBatch group extended it (vision runs only)
+					if cl == "kv-cache-full" && srv.rec.maxRows > srv.s.batchSize {
+						// a batch larger than the batch size the cache was initialised for has been
+						// stored (or was refused just now): a SameBatch group extended it (vision runs
+						// only). A sliding-window sequence keeps its window plus its last batch, so the
+						// batch that no longer fits may be a later, ordinary one of another sequence.
 						cl = "kv-cache-full:batch-extended-beyond-batch-size"
 					}
 					if cl != "injected-backend-failure" {
